@@ -222,15 +222,7 @@ func ruleDeclareThenInit(c *Ctx, r *Report, rule string) {
 					return true
 				}
 				atoms, pure := c.nnf(ifs.Cond, true, nil).conjuncts()
-				if !pure || len(atoms) != 1 {
-					return true
-				}
-				b, ok := c.boundOf(atoms[0])
-				if !ok {
-					return true
-				}
-				sel, ok := stripParens(b.X).(*ast.SelectorExpr)
-				if !ok || sel.Sel.Name != "depth" {
+				if !pure {
 					return true
 				}
 				leaves, returns := false, false
@@ -242,13 +234,23 @@ func ruleDeclareThenInit(c *Ctx, r *Report, rule string) {
 						returns = true
 					}
 				}
-				switch {
-				case b.Lo != nil && b.Hi != nil && *b.Lo == -1 && *b.Hi == -1:
-					// depth == -1: skip this local
-					okSkip = leaves && !returns
-				case b.Ne != nil && *b.Ne == -1:
-					// depth != -1: only then return the index
-					okSkip = returns
+				for _, at := range atoms {
+					b, ok := c.boundOf(at)
+					if !ok {
+						continue
+					}
+					sel, ok := stripParens(b.X).(*ast.SelectorExpr)
+					if !ok || sel.Sel.Name != "depth" {
+						continue
+					}
+					switch {
+					case b.Lo != nil && b.Hi != nil && *b.Lo == -1 && *b.Hi == -1 && len(atoms) == 1:
+						// depth == -1: skip this local
+						okSkip = leaves && !returns
+					case b.Ne != nil && *b.Ne == -1:
+						// ... && depth != -1: only then return the index
+						okSkip = returns
+					}
 				}
 				return true
 			})
